@@ -106,6 +106,7 @@ fn run_once(sc: &Value, decider: Decider, id: &Value) -> RunOut {
         let ta: env::TopAction = Arc::new(move |act, comp| perform(&g2, act, comp));
         *env.top_action.lock().unwrap_or_else(|e| e.into_inner()) = Some(ta);
     }
+    let mut panic_text: Option<String> = None;
     loop {
         if env.lock().ntop >= max_top {
             break;
@@ -133,7 +134,9 @@ fn run_once(sc: &Value, decider: Decider, id: &Value) -> RunOut {
             }
         }));
         if let Err(p) = r {
-            env.event("panic", "", &panic_msg(p), json!(0));
+            // the message goes into the record, not into the trace (the model has no message text)
+            panic_text = Some(panic_msg(p));
+            env.event("panic", "", "", json!(0));
             break;
         }
     }
@@ -148,6 +151,7 @@ fn run_once(sc: &Value, decider: Decider, id: &Value) -> RunOut {
         "obs": gd.obs,
         "diverged": diverged,
         "depth": gd.max_depth,
+        "panic_msg": panic_text,
     });
     let twosub = sc["twosub"].as_bool().unwrap_or(false);
     let nsinks = gd.sinks.len();
